@@ -10,7 +10,7 @@ TEXT = {
     'C01': dict(
         technique=SIM + 'std::vector reference model compared after every step',
         text='Seeded search over operation histories (pool of 2-5 vectors, every public operation incl. range sources of every iterator category '
-             'and single-pass streams, 13 type families) with a std::vector reference model compared after each step: element sequence by '
+             'and single-pass streams, 22 type families incl. std::string, std::pair and nested-container elements; also built and run as C++14) with a std::vector reference model compared after each step: element sequence by '
              'identity, returned positions and values, comparison results. Samples histories, does not enumerate them.',
         note='Trusts libstdc++ std::vector as the reference, the simulated allocator and the element ledger; only the compiled configuration '
              'set is explored; capacity is never compared with the model (C07/C18 own it).',
@@ -208,7 +208,7 @@ def generate():
             {'name': 'sched', 'path': 'sim/x_sched.cpp', 'serves_properties': ['C20'],
              'kind_free_text': 'seeded one-operation-at-a-time thread scheduler over real threads, built with clang -fsanitize=thread'},
             {'name': 'amcsim', 'path': 'sim/', 'serves_properties': sorted(p for p in claimed if amcdriver.CHECKS[p].get('engine', 'amcsim') == 'amcsim'),
-             'kind_free_text': 'C++17 deterministic simulator (seeded plans, simulated heap / element ledger / comparator / streams, reference models, '
+             'kind_free_text': 'C++17 (vector engine also C++14) deterministic simulator (seeded plans, simulated heap / element ledger / comparator / streams, reference models, '
                                'fault attachment, ddmin shrinker, replay gate) driven by driver/amcdriver.py'},
         ],
         'checks': checks,
